@@ -660,8 +660,12 @@ class Flows:
                     if n[0] == "SW":
                         continue
                     if n[0] == "CALL":
-                        dl = b.blocks[n[1]].term.dest
-                        if dl.has_deref() or len(b.assigns_to(dl.local)) <= 1:
+                        tc_ = b.blocks[n[1]].term
+                        dl = tc_.dest
+                        # a call that changes something in place through a `&mut` argument (mem::swap under a
+                        # condition) is one more definition of that object: its condition is part of the value
+                        mutates = any(fl.mut_reach(a_, False) for a_ in tc_.args if a_.place is not None and a_.place.ty.startswith("&mut"))
+                        if not mutates and (dl.has_deref() or len(b.assigns_to(dl.local)) <= 1):
                             continue
                     if n[0] == "L" and isinstance(n[1], int) and len(b.assigns_to(n[1])) <= 1:
                         continue
